@@ -16,6 +16,7 @@ def step02 (t : List String) : String :=
   | ["coinMultiplyInt64", c, n, k] => (do let c ← c.toInt?; let n ← s2b n; let k ← k.toInt?; pure s!"{coinMultiplyInt64 c n k}").getD "bad-op"
   | ["coinLessThan", c, v] => (do let c ← c.toInt?; let v ← v.toInt?; pure (b2s (coinLessThan c false v false))).getD "bad-op"
   | ["coinLessThanEqual", c, v] => (do let c ← c.toInt?; let v ← v.toInt?; pure (b2s (coinLessThanEqual c false v false))).getD "bad-op"
+  | ["newCoinFromInt", a, d] => (do let a ← a.toInt?; let d ← d.toInt?; pure s!"{newCoinFromInt a d}").getD "bad-op"
   | _ => "bad-op"
 
 def main : IO Unit := do loop step02 (← IO.getStdin)
